@@ -392,7 +392,7 @@ def odd_sc(rng, kind, shard):
     if kind == "name":
         app = rng.choice(ODD)
     if kind in ("long-list", "blank+list"):
-        n = rng.choice([17, 64, 65, 255, 256, 300])
+        n = rng.choice(LONG_LISTS[0])
         members = [1000 + 7 * j for j in range(n)]
     if kind == "big-ids":
         members = rng.sample([M64, M64 - 1, 1 << 63, (1 << 63) - 1, 1 << 32, (1 << 32) + 1, 1 << 31, 100000, 200000], rng.randint(1, 4))
@@ -415,12 +415,14 @@ def pick_fault(rng, sure=False):
     if sure or x < 0.5:
         return ("t", 1) if rng.random() < 0.7 else ("c", 0)
     if x < 0.8:
-        return ("d", rng.choice([1, 300, 1000, 1900, 1990, 2010, 2100, 2300, 2600, 3000, 4000, 6000, 12000]))
+        return ("d", rng.choice(DEADLINES[0]))
     return ("t", rng.choice([2, 2, 3, 4, 5]))
 
 
 FPROBE = [("CTX",), ("GB",), ("GS",), ("GD",)]
-FAULT_CAP = [7]
+FAULT_CAP = [7]                                 # failed calls per sequence (quick; thorough: 9)
+LONG_LISTS = [[17, 33, 64, 65, 65, 256]]        # member-list lengths (every later probe repeats the list: thorough adds 255, 300, 1000)
+DEADLINES = [[1, 300, 1000, 1900, 1990, 2010, 2100, 2300, 2600, 3000, 4000, 6000, 12000]]   # client deadlines in microseconds
 
 
 def gen_case(rng, mal_sc, mal_sr, restart, faults=0.0, odd=0.0):
@@ -883,6 +885,7 @@ def monitor_one(name, ops, ans, stats, choice):
         if k == "SC" and tok == [1] and (op[3] in STRTAB or len(op[4]) > 16 or max(op[4]) >= 1 << 32) and not flt:
             # an unusual but not malformed argument may be refused - then the DB must be untouched
             stats["odd_refused"] = stats.get("odd_refused", 0) + 1
+            stats.setdefault("odd_names", set()).add(op[3])
             last = dict(prev)
             fails += untouched_after(ops, ans, i, prev, op)
         elif k == "SR" and tok == [1] and (set(op[1]) & set(STRTAB) or len(op[1]) > 4) and not flt:
@@ -1153,6 +1156,10 @@ def run(ck):
                 for ent in json.load(open(os.path.join(cdir, fn))):
                     cases.append((ent["name"], [tuple(tuple_op(o)) for o in ent["ops"]], ent.get("mode", "dir")))
     cases += gen_death_cases(rng)
+    if not quick:
+        FAULT_CAP[0] = 9
+        LONG_LISTS[0] = [17, 33, 64, 65, 255, 256, 300, 1000]
+        DEADLINES[0] = sorted(set(DEADLINES[0] + list(range(1800, 5000, 100)) + [8000, 20000, 50000]))
     nseq = 180 if quick else 1500
     for i in range(nseq):
         # every sequence carries 2-3 malformed calls of each family, cycling through the kinds
@@ -1163,7 +1170,7 @@ def run(ck):
         faults, odd = [(0.0, 0.0), (1.0, 0.4), (0.4, 1.0)][i % 3]
         ops = gen_case(rng, msc, msr, restart, faults=faults, odd=odd)
         cases.append(("g%d" % i, ops, "dir" if restart else "mem"))
-    for i in range(60 if quick else 1200):
+    for i in range(60 if quick else 600):
         ops = gen_fault_config_case(rng, thorough=not quick, restart=i % 6 == 0)
         cases.append(("f%d" % i, ops, "mem" if i % 6 else "dir"))
     # ---- execute
